@@ -142,7 +142,7 @@ Captured(i) == \E k \in 1..Len(P(tid).capt) : \E j \in 1..Len(P(tid).capt[k][2])
 
 ShouldFire(s, i, t) ==
     /\ Node(i).kind \notin SourceKinds
-    /\ \E k \in ActiveIns(Node(i)) : k <= Len(Node(i).ins) /\ s.lw[Node(i).ins[k]] = t
+    /\ \E k \in ActiveInsS(Node(i), s.nst[i]) : k <= Len(Node(i).ins) /\ s.lw[Node(i).ins[k]] = t
     /\ \A k \in ValidIns(Node(i)) : k <= Len(Node(i).ins) => s.lw[Node(i).ins[k]] # 0
 
 ReqValid(s, i) == \A k \in ValidIns(Node(i)) : k <= Len(Node(i).ins) => s.lw[Node(i).ins[k]] # 0
@@ -216,7 +216,7 @@ OnFn(e) ==
           <<"C01.user_code_ran_twice_in_one_cycle", i \notin S.fired>>,
           <<"C01.consumer_ran_before_its_producer_had_its_turn", \A c \in Consumers(i) : c \notin S.fired>> >>, 1)
         why2 == IF why1 # "" THEN why1 ELSE InputsTruthful(S, e)
-        anyTick == \E k \in ActiveIns(n) : k <= Len(n.ins) /\ S.lw[n.ins[k]] = t
+        anyTick == \E k \in ActiveInsS(n, S.nst[i]) : k <= Len(n.ins) /\ S.lw[n.ins[k]] = t
         why3 == IF why2 # "" THEN why2 ELSE FirstFail(<<
           <<"C03.user_code_ran_without_ticked_active_input_or_own_wakeup",
                 anyTick \/ i \in S.due \/ i \in S.stale>>,
